@@ -285,3 +285,48 @@ class SizeWindowTightness(object):
                     'similarity of these counts is more than 1e-4 below the threshold'
                     % (x, M, t, get_size_lower_bound(x, M, t), get_size_upper_bound(x, M, t), y))
         return None
+
+
+@oracle('spec.position_refines_prefix_and_size')
+class PositionRefinement(object):
+    """C14 (bounded, real code against real code): the pairs PositionFilter.filter_tables keeps are a subset of
+    those kept by PrefixFilter.filter_tables and by SizeFilter.filter_tables with the same parameters on the
+    same tables.  Cases: a set measure (whitespace tokens, float thresholds), EDIT_DISTANCE (q-gram bags,
+    integer thresholds 1..3, qval 2 / 3) and OVERLAP (integer thresholds) -- the last two modes of the
+    filter classes have no contract.  Scope: seeded random tables of 1..6 rows per side, short strings over a
+    small alphabet (so that q-gram counts differ by up to q*t), n_jobs 1."""
+
+    def inputs(self, case, rng, model, tier):
+        n = 6000 if tier == 'thorough' else 600
+        for _ in range(n):
+            if case == 'EDIT_DISTANCE':
+                words = ['zurich', 'zurichs', 'zurichsee', 'zur', 'zu', 'urich', 'aurich', 'munich', 'ab', 'abab', 'ababab', 'b']
+                mk = lambda: rng.choice(words) if rng.random() < 0.6 else ''.join(rng.choice('abz') for _ in range(rng.randint(1, 9)))
+                yield dict(l=[mk() for _ in range(rng.randint(1, 6))], r=[mk() for _ in range(rng.randint(1, 6))],
+                           t=rng.randint(1, 3), q=rng.choice((2, 2, 3)))
+            else:
+                uni = 'a b c d e f g'.split()
+                mk = lambda: ' '.join(rng.sample(uni, rng.randint(1, 6)))
+                yield dict(l=[mk() for _ in range(rng.randint(1, 6))], r=[mk() for _ in range(rng.randint(1, 6))],
+                           t=rng.randint(1, 4) if case == 'OVERLAP' else rng.choice([0.3, 0.5, 0.6, 0.75, 0.8, 1.0]), q=None)
+
+    def check(self, case, a):
+        import pandas as pd
+        from py_stringmatching import WhitespaceTokenizer, QgramTokenizer
+        from py_stringsimjoin.filter.position_filter import PositionFilter
+        from py_stringsimjoin.filter.prefix_filter import PrefixFilter
+        from py_stringsimjoin.filter.size_filter import SizeFilter
+        lt = pd.DataFrame({'id': list(range(len(a['l']))), 'v': pd.Series(a['l'], dtype=object)})
+        rt = pd.DataFrame({'id': list(range(len(a['r']))), 'v': pd.Series(a['r'], dtype=object)})
+        mk_tok = (lambda: QgramTokenizer(qval=a['q'])) if case == 'EDIT_DISTANCE' else (lambda: WhitespaceTokenizer(return_set=True))
+        kept = {}
+        for name, cls in (('position', PositionFilter), ('prefix', PrefixFilter), ('size', SizeFilter)):
+            out = cls(mk_tok(), case, a['t']).filter_tables(lt, rt, 'id', 'id', 'v', 'v', n_jobs=1, show_progress=False)
+            kept[name] = set(zip(out['l_id'], out['r_id']))
+        for other in ('prefix', 'size'):
+            extra = kept['position'] - kept[other]
+            if extra:
+                i, j = sorted(extra)[0]
+                return ('PositionFilter.filter_tables [%s %r%s] keeps (%r, %r) which %sFilter.filter_tables drops'
+                        % (case, a['t'], '' if a['q'] is None else ', qval=%d' % a['q'], a['l'][i], a['r'][j], other.capitalize()))
+        return None
